@@ -19,6 +19,9 @@ YIELD_COST = 1e-6
 SELECT_COST = 50e-6
 
 
+WATCHDOG = [0]  # wall seconds per simulated run; set by the runner
+
+
 class SimAbort(SystemExit):
     """Raised inside simulated threads when the run is being torn down.
     A SystemExit subclass, so wasyncore re-raises it by design."""
@@ -573,6 +576,11 @@ class Kernel:
     def run(self):
         """driver: give the baton to the first runnable thread, wait for the
         end of the run, then tear every thread down."""
+        if WATCHDOG[0]:
+            # (re-)arm the wall-clock watchdog per simulated run: families that enumerate many sub-runs inside
+            # one evaluation would otherwise trip a per-evaluation timer on a loaded machine
+            import faulthandler
+            faulthandler.dump_traceback_later(WATCHDOG[0], exit=True)
         gc.disable()
         try:
             cands = self._runnable()
